@@ -393,6 +393,29 @@ func (p *printer) tryToGetImportedEnumValue(target js_ast.Expr, name string) (js
 	return js_ast.TSEnumValue{}, false
 }
 
+// This returns true if the expression is a TypeScript enum value that will be
+// printed as a number (which is printed using a unary operator if it's negative)
+func (p *printer) isInlinedEnumNumber(expr js_ast.Expr) bool {
+	switch e := expr.Data.(type) {
+	case *js_ast.EInlinedEnum:
+		_, ok := e.Value.Data.(*js_ast.ENumber)
+		return ok
+
+	case *js_ast.EDot:
+		if value, ok := p.tryToGetImportedEnumValue(e.Target, e.Name); ok {
+			return value.String == nil
+		}
+
+	case *js_ast.EIndex:
+		if index, ok := e.Index.Data.(*js_ast.EString); ok {
+			if value, _, ok := p.tryToGetImportedEnumValueUTF16(e.Target, index.Value); ok {
+				return value.String == nil
+			}
+		}
+	}
+	return false
+}
+
 func (p *printer) tryToGetImportedEnumValueUTF16(target js_ast.Expr, name []uint16) (js_ast.TSEnumValue, string, bool) {
 	if id, ok := target.Data.(*js_ast.EImportIdentifier); ok {
 		ref := ast.FollowSymbols(p.symbols, id.Ref)
@@ -3485,6 +3508,9 @@ func (v *binaryExprVisitor) checkAndPrepare(p *printer) bool {
 			v.leftLevel = js_ast.LCall
 		} else if _, ok := e.Left.Data.(*js_ast.ENumber); ok {
 			// Negative numbers are printed using a unary operator
+			v.leftLevel = js_ast.LCall
+		} else if p.isInlinedEnumNumber(e.Left) {
+			// Inlined TypeScript enum values can also be negative numbers
 			v.leftLevel = js_ast.LCall
 		} else if p.options.MinifySyntax {
 			// When minifying, booleans are printed as "!0 and "!1"
